@@ -40,6 +40,22 @@ def compile_spec(yaml_text, mode):
         return "rejected", None, {"exc": type(ex).__name__, "msg": str(ex)[:300], "where": where}
 
 
+def compile_shared(yaml_text, mode, n):
+    """Parse once, compile n times from the same parsed objects. -> (status, [texts], info)"""
+    from teaal.parse import Einsum, Mapping, Architecture, Bindings, Format
+    from teaal.trans.hifiber import HiFiber
+    texts = []
+    try:
+        objs = [Einsum.from_str(yaml_text), Mapping.from_str(yaml_text)]
+        if mode == "metrics":
+            objs += [Architecture.from_str(yaml_text), Bindings.from_str(yaml_text), Format.from_str(yaml_text)]
+        for _ in range(n):
+            texts.append(str(HiFiber(*objs)))
+        return "ok", texts, None
+    except Exception as ex:
+        return "rejected", texts, {"exc": type(ex).__name__, "msg": str(ex)[:300], "compile": len(texts) + 1}
+
+
 def input_var(spec, name):
     ro = spec.get("rank_order") or {}
     order = ro.get(name, spec["decl"][name])
@@ -226,6 +242,12 @@ def run_spec(args):
         if s2 != "ok" or t2 != text:
             out["recompile_differs"] = {"round": i + 1, "status": s2, "text": t2}
             break
+    if args.get("recompile") and "recompile_differs" not in out:
+        # and twice from ONE set of parsed objects ("compiling the same specification twice" in a notebook)
+        st3, texts3, info3 = compile_shared(yaml_text, mode, 2)
+        if st3 != "ok" or any(t != text for t in texts3):
+            out["recompile_differs"] = {"round": "shared-objects", "status": st3, "text": None,
+                                        "which": [i for i, t in enumerate(texts3) if t != text], "reject": info3}
     out["closed"] = closed.analyse(text, closed.allowed_names(spec))
     runs = []
     for inp in args.get("inputs", []):
